@@ -100,8 +100,8 @@ Seconds ==
 BinOps == <<"concat", "intersperse", "zip", "keyzip">>
 
 FailClasses == <<"FilterException", "SubFilterException", "UserValueError",
-                 "UserKeyError", "UserBaseException">>
-CatchNames == <<"Filter", "FilterOrValue", "Exception", "UserKey">>
+                 "UserKeyError", "UserIndexError", "UserBaseException">>
+CatchNames == <<"Filter", "FilterOrValue", "Exception", "UserKey", "Lookup">>
 
 ReducedUnary(m) ==
   LET n == NOf(m) IN
